@@ -218,8 +218,8 @@ def verdicts(c, results, what):
 
 def main():
     c = Check(PID, "partial")
-    c.cov["rule"] = ("corpus = .py files of the CPython stdlib and of /venv site-packages that ast.parse accepts, that use no Scenic reserved word "
-                     "and no class-level annotation (Scenic property syntax); quick: a seeded sample is scanned with CPython and ~300 files are chosen "
+    c.cov["rule"] = ("corpus = .py files of the CPython stdlib and of /venv site-packages that ast.parse accepts, that use no Scenic reserved word, "
+                     "no class-level annotation (Scenic property syntax) and no `@` operator (Scenic vector syntax); quick: a seeded sample is scanned with CPython and ~300 files are chosen "
                      "greedily so that every syntactic feature (match, walrus, f-string conversions, star calls, decorators, classes without bases, "
                      "str/int/float calls, ...) occurs at least 4 times, the rest evenly over 5 size strata; plus variants with an identifier renamed "
                      "to ego/workspace/globalParameters/str/int/float (exercise the name rewrites and the store-context refusals), plus every maximal "
@@ -292,8 +292,9 @@ def main():
         variants.append(dict(id=len(jobs) + len(variants), path=r["path"], model=True,
                              rename=[r["names"][k], NEW[(len(variants)) % len(NEW)]]))
     c.cov["scan_wall_s"] = round(time.time() - t_start, 1)
-    deadline = time.time() + (110 if quick else 1900)
-    res = par("compare", jobs + variants, "jobs", dict(reserved=reserved, deadline=deadline))
+    size_of = {r["path"]: r["size"] for r in chosen}
+    alljobs = sorted(jobs + variants, key=lambda j: (size_of[j["path"]], j["id"]))
+    res = par("compare", alljobs, "jobs", dict(reserved=reserved, cpu_budget=(70 if quick else 2000)))
     byid = {j["id"]: j for j in jobs + variants}
     for r in res:
         j = byid[r["id"]]
@@ -312,7 +313,7 @@ def main():
     sfiles = scenic_files()
     if quick:
         rng.shuffle(sfiles)
-        sfiles = sorted(sfiles[:60])
+        sfiles = sorted(sfiles[:45])
     t_fr = time.time()
     fr = par("fragments", sfiles, "paths", {})
     verdicts(c, fr, "fragment")
